@@ -125,6 +125,14 @@ def r1_failover(ctx):
         sl = Slice(b, [op_local(s.args[0])]) if s.args and op_local(s.args[0]) is not None else None
         rl, _ = result_local(b, c)
         from_this = bool(sl) and (rl in sl.locals)
+        # ... and of this protocol ONLY: a value that can also be an earlier protocol's (always transient) error - `last_error.take().unwrap_or(e)` -
+        # lets a definitive refusal of this protocol pass as retryable
+        if from_this and sl is not None:
+            slw = Slice(b, [op_local(s.args[0])], transparent=True)
+            for g in PROTO_FIELDS[:i]:
+                orl, _ = result_local(b, pc[g])
+                if orl is not None and orl in slw.locals:
+                    from_this = False
         ctx.check(gated and stop_ok and from_this, rule, [b.id, f, "retry-gate"], "fallback only after a retryable error of this protocol",
                   "query_with_fallback moves on from %s without consulting should_retry() on its error, or a non-retryable (definitive) refusal does "
                   "not stop the chain (gated=%s, refusal-stops=%s, tests-own-error=%s)" % (f, gated, stop_ok, from_this), c.loc(),
